@@ -13,6 +13,9 @@ new_global = Fn(FS, "new_global", impl="SymbolContext", slot="util", ret="res", 
 
 LEX = '(match #[trigger] old(ast).nodes@[j] { asm::AstAny::Symbol(n) => n.item_ref is None ==> ({   let d = %(D)s.symbols.decls@[(%(A)s.nodes@[j]->Symbol_0.item_ref->0).0 as int];   let scope = asm::scope_before(%(A)s.nodes@, &%(D)s.symbols, j);   n.hierarchy_level <= scope.len() && d.depth == n.hierarchy_level && d.ctx.hierarchy@ == scope.subrange(0, n.hierarchy_level as int).push(n.name) }), _ => true })'
 
+LEX_ALL = LEX.replace("n.item_ref is None ==> ", "")
+FIRST_ROUND = "forall|j: int| 0 <= j < old(ast).nodes@.len() ==> (match #[trigger] old(ast).nodes@[j] { asm::AstAny::Symbol(n) => n.item_ref is None, _ => true })"
+
 collect = Fn(
     F, "collect", slot="decls", ret="res", key="decls::symbol::collect", props=["C15", "C03"],
     requires=[
@@ -29,6 +32,8 @@ collect = Fn(
           " && final(ast).nodes@[j]->Symbol_0.name == n.name && final(ast).nodes@[j]->Symbol_0.hierarchy_level == n.hierarchy_level,"
           " _ => final(ast).nodes@[j] == old(ast).nodes@[j] })", ["C15"]),
         C("lexical_scope", "res is Ok ==> forall|j: int| 0 <= j < old(ast).nodes@.len() ==> " + LEX % {"A": "final(ast)", "D": "final(decls)"}, ["C15"]),
+        C("every_symbol_is_declared_in_the_scope_of_the_labels_before_it", "res is Ok ==> forall|j: int| 0 <= j < old(ast).nodes@.len() ==> " + LEX_ALL % {"A": "final(ast)", "D": "final(decls)"}, ["C15"],
+          guard=FIRST_ROUND, finding="D36"),
         C("table_stays_well_formed", "res is Ok ==> final(decls).symbols.wf()", ["C03"]),
         C("earlier_declarations_kept", "final(decls).symbols.decls@.len() >= old(decls).symbols.decls@.len() && forall|k: int| 0 <= k < old(decls).symbols.decls@.len() ==> (#[trigger] final(decls).symbols.decls@[k]).ctx == old(decls).symbols.decls@[k].ctx", ["C15"]),
     ],
